@@ -115,7 +115,7 @@ namespace fs
                 ssize_t off = rs.aligned_end_offset() - m_alignment; // this should never be negative
                 if (filesize - off > (ssize_t)(rs.end_remainder)) {
                     // that means there is still parts of data after the rear end of pwrite block
-                    auto ptr_ = (char*)ptr + off - rs.aligned_begin_offset();
+                    auto ptr_ = (char*)ptr + (off - rs.aligned_begin_offset());
                     ssize_t ret = m_file->pread(ptr_, m_alignment, off);
                     if ((ret < 0) ||
                         ((ret + off < filesize) && (ret < (ssize_t)m_alignment))) // cannot fetch all data of file, and cannot fillup aligned block
